@@ -253,10 +253,12 @@ LitNodes(f)  == LitsSeq(AllExprs(f), 1)
 VarNodes(f)  == {f.body[j].x : j \in {i \in 1..Len(f.body) : f.body[i].k = "V" /\ "ty" \notin DOMAIN f.body[i] /\ "t" \notin DOMAIN f.body[i]}}
 Nodes(f)     == LitNodes(f) \cup VarNodes(f)
 
-\* nodes that are the operand of a primitive cast `n as T`: the code may take T as a hint (unconstrained)
+\* <<n, T>>: node n is (the type of) the operand of a primitive cast `e as T`.  errors.md E583 says the cast tells nothing
+\* about its operand; the code hands T down as a hint and binds an unknown variable to it (the repository's own
+\* tests/samples/invalid/ambiguous_identity_casting.pn expects exactly that) -- so whatever hangs on a hint is unconstrained
 HintsSeq(P, env, es, i) == IF i > Len(es) THEN {} ELSE HintsOf(P, env, es[i]) \cup HintsSeq(P, env, es, i + 1)
 HintsOf(P, env, e) ==
-    CASE e.k = "as"    -> NodesIn(TyOf(P, env, e.e)) \cup HintsOf(P, env, e.e)
+    CASE e.k = "as"    -> {<<n, e.t>> : n \in NodesIn(TyOf(P, env, e.e))} \cup HintsOf(P, env, e.e)
       [] e.k = "bin"   -> HintsOf(P, env, e.l) \cup HintsOf(P, env, e.r)
       [] e.k \in {"un", "paren"} -> HintsOf(P, env, e.e)
       [] e.k = "call"  -> HintsSeq(P, env, e.args, 1)
@@ -296,8 +298,12 @@ Class(cs, n, lits) ==
 Solve(P, f, cs) ==
     LET lits == LitNodes(f)
         hs   == Hints(P, f)
-    IN {[n |-> n, lit |-> (n \in lits), c |-> Class(cs, n, lits), d |-> Dist(cs, n),
-         hint |-> (Comp(cs, n) \cap hs # {})] : n \in Nodes(f)}
+    IN {LET c == Class(cs, n, lits)
+            comp == Comp(cs, n)
+        IN [n |-> n, lit |-> (n \in lits), c |-> c, d |-> Dist(cs, n),
+            hint |-> (\E h \in hs : h[1] \in comp),
+            \* a hint that disagrees with the class (or would decide an undetermined one)
+            hbad |-> (\E h \in hs : h[1] \in comp /\ h[2] # c)] : n \in Nodes(f)}
 
 TypeOfNode(sol, n) == LET s == {r \in sol : r.n = n} IN IF s = {} THEN "unc" ELSE (CHOOSE r \in s : TRUE).c
 IsType(c) == c \notin {"unc", "conflict", "undet"}
@@ -342,7 +348,7 @@ DemandLit == 3
 FVerdict(P, f, sol, static) ==
     IF static \/ \E r \in sol : r.c = "conflict" THEN "reject"
     ELSE IF \E r \in sol : r.c = "undet" /\ ~r.hint THEN "undet"
-    ELSE IF \E r \in sol : r.c \in {"unc", "undet"} THEN "unc"
+    ELSE IF \E r \in sol : r.c \in {"unc", "undet"} \/ r.hbad THEN "unc"
     ELSE IF OpViolation(P, f, sol) THEN "reject"
     ELSE IF OpUnconstrained(P, f, sol) THEN "unc"
     ELSE IF \A r \in sol : r.d <= (IF r.lit THEN DemandLit ELSE DemandVar) THEN "accept"
